@@ -287,6 +287,17 @@ func runC17(c *Ctx) error {
 			}
 		}
 	}
+	// keys of the `x-…` kind (extension fields other tools tolerate): the schema has no place for them, so neither has
+	// the parser – at the top level, in a format section, in a contents entry, in an override block
+	for where, doc := range map[string]map[string]any{
+		"top-level":        {"name": "p", "arch": "amd64", "version": "1.0.0", "x-file-info": map[string]any{"mode": 420}},
+		"top-level-scalar": {"name": "p", "arch": "amd64", "version": "1.0.0", "x-note": "text"},
+		"deb":              {"name": "p", "arch": "amd64", "version": "1.0.0", "deb": map[string]any{"x-note": "text"}},
+		"contents[]":       {"name": "p", "arch": "amd64", "version": "1.0.0", "contents": []any{map[string]any{"src": "a", "dst": "/b", "x-note": "text"}}},
+		"overrides.rpm":    {"name": "p", "arch": "amd64", "version": "1.0.0", "overrides": map[string]any{"rpm": map[string]any{"x-note": "text"}}},
+	} {
+		check(doc, "x-key:"+where)
+	}
 	// integer settings: the parser accepts any number that fits the field (modes with set-user-ID, set-group-ID and sticky
 	// bits, a umask, large sizes, priorities); the schema must not be narrower than that
 	for _, p := range order {
